@@ -39,7 +39,7 @@ def proc_class():
         return NONE
     return AbsClass('Proc', fields={'alive': smt.Bool, 'joins': smt.Int, 'sigterm': smt.Bool},
                     methods={'is_alive': is_alive, 'join': join, 'terminate': terminate, 'start': start},
-                    attrs={'pid': lambda I, o: VSym(I.ex.fresh('child_pid', Val)), 'sentinel': lambda I, o: VSym(I.ex.fresh('sentinel', Val)),
+                    attrs={'pid': lambda I, o: VSym(I.ex.fresh('child_pid', Val)), 'sentinel': lambda I, o: VInt(I.ex.fresh('sentinel', smt.Int)),      # an OS handle: an integer, never equal to a pipe object
                            'ident': lambda I, o: VSym(I.ex.fresh('child_ident', Val))},
                     text='T4 Thread/Process lifecycle: is_alive() never turns True again after it was False; join(t) returns')
 
@@ -75,6 +75,17 @@ def install(ex):
     ex.ext_models['threading.get_ident'] = const('ident')
 
 
+def init_attrs(repo, cls):
+    """names assigned to self in the __init__ of cls (set-ups follow attributes added or removed by a change of the code)"""
+    import ast
+    fi, _ = repo.lookup_method(repo.cls(cls), '__init__')
+    out = set()
+    for n in ast.walk(fi.node):
+        if isinstance(n, ast.Attribute) and isinstance(n.ctx, ast.Store) and isinstance(n.value, ast.Name) and n.value.id == 'self':
+            out.add(n.attr)
+    return out
+
+
 def process_parent(ex, env, persistent=False, cls=PW):
     """parent-side ProcessWorker that has been started"""
     I = ex.interp
@@ -89,6 +100,8 @@ def process_parent(ex, env, persistent=False, cls=PW):
              '_parent_host': I.sym('phost'), '_parent_pid': I.sym('ppid'), '_parent_tid': I.sym('ptid'),
              '_target': I.sym('target'), '_args': I.sym('args'), '_kwargs': I.sym('kwargs'), '_name': I.sym('name'),
              '_userid': I.sym('userid'), '_do_run': VBool(True), '_set_names': I.sym('set_names', 'bool')}
+    if '_early_msg' in init_attrs(ex.repo, PW):
+        attrs['_early_msg'] = NONE       # nothing received ahead of the child's exit (set-ups that model wait() having done so override it)
     self_v = ex.alloc(HObj(ci, attrs))
     # the caller is the parent: its (host, pid, tid) differs from the child's
     cur_pid = ex.ext_models['os.getpid'](ex, [], {})
